@@ -11,6 +11,7 @@ H = os.path.join(VERIF, "harness", "c15.c")
 DRIVER = '''#include "ImathPlane.h"
 #include "ImathLine.h"
 #include "ImathVecAlgo.h"
+#include "ImathLineAlgo.h"
 using namespace IMATH_INTERNAL_NAMESPACE;
 void use15 (Plane3<float> &p, Line3<float> &l, Vec3<float> &a, Vec3<float> &b, Vec3<float> &c, float &t, bool &r)
 {
@@ -18,6 +19,7 @@ void use15 (Plane3<float> &p, Line3<float> &l, Vec3<float> &a, Vec3<float> &b, V
     r = p.intersect (l, a); r = p.intersectT (l, t); p = -p;
     l.set (a, b); a = l (t); a = l.closestPointTo (b);
     a = project (b, c); a = orthogonal (b, c); a = reflect (b, c); t = a.length ();
+    t = l.distanceTo (a); a = closestVertex (a, b, c, l);
 }
 '''
 P, L, V = "Plane3<float>", "Line3<float>", "const Vec3<float> &"
@@ -29,6 +31,8 @@ ALIASES = {
     "line_set": L + "::set(%s, %s)" % (V, V), "line_at": L + "::operator()(float) const", "line_closestPointTo": L + "::closestPointTo(%s) const" % V,
     "project": "project<Vec3<float>,0>(%s, %s)" % (V, V), "orthogonal": "orthogonal<Vec3<float>,0>(%s, %s)" % (V, V), "reflect": "reflect<Vec3<float>,0>(%s, %s)" % (V, V),
     "length": "Vec3<float>::length() const",
+    "line_distanceTo": L + "::distanceTo(%s) const" % V,
+    "closestVertex": "closestVertex<float>(%s, %s, %s, const Line3<float> &)" % (V, V, V),
 }
 LIMITS = [(r"^std::numeric_limits<float>::%s\(\)$" % k, "cxx2c_limit_float_" + k) for k in ("min", "max", "lowest", "epsilon")]
 EXTRACTION = {}
@@ -41,6 +45,8 @@ UNITS = [("plane_set3", ["plane_set3", "plane_distanceTo"], "Plane3(p0,p1,p2) ha
          ("plane_neg", ["plane_neg"], "-plane negates normal and distance"),
          ("line_set", ["line_set"], "Line3(p0,p1) starts at p0, direction parallel to p1 - p0"),
          ("line_closestPoint", ["line_at", "line_closestPointTo"], "line(t) == pos + t dir; closestPointTo(point) lies on the line and the connecting segment is perpendicular to the direction (homogeneous in N = dir.dir)"),
+         ("line_distanceTo", ["line_distanceTo", "line_closestPointTo", "length"], "distanceTo(point) == |closestPointTo(point) - point| (the reported distance is the length of the connecting segment)"),
+         ("closestVertex", ["closestVertex", "line_closestPointTo"], "closestVertex(v0,v1,v2,line) returns the first of the three vertices whose squared distance to its closest point on the line is minimal"),
          ("vecalgo", ["project", "orthogonal", "reflect", "length"], "project(s,t) parallel to s; orthogonal + project == t; orthogonal perpendicular to s up to the residual; reflect(s,t) == 2 project(t,s) - s")]
 
 
@@ -85,7 +91,7 @@ NOT_COVERED = [
     "Line3::closestPointTo(Line3) / distanceTo(Line3) / closestPoints: need unit directions and d*inv(d) = 1 simultaneously - no polynomial form found; "
     "NOTE Line3::distanceTo(Line3) returns |(d1 x d2).(p2 - p1)| without dividing by |d1 x d2| (0.7071 for two skew lines at distance 1, findings/C15_line_distanceTo_line_demo.cpp): "
     "seen while reading, outside the reach of these obligations, not repaired",
-    "unit normal of a constructed plane (needs sqrt(x)^2 = x), plane x matrix, Sphere3 (quadratic roots, circumscribe: 0.5 literal), triangle intersect / barycentrics, closestVertex, rotatePoint",
+    "unit normal of a constructed plane (needs sqrt(x)^2 = x), plane x matrix, Sphere3 (quadratic roots, circumscribe: 0.5 literal), triangle intersect / barycentrics, rotatePoint",
     "every 'to within rounding' clause: the identities are exact-arithmetic identities",
 ]
 ASSUMPTIONS = ["RETYPE mode (harness/cxx2c_rt_ring.h)", "cxx2c extraction rules; differential validation of the float instantiation natively"]
